@@ -70,6 +70,10 @@ var c15Faults = []c15Fault{
 	{"fails-after-function-call-in-same-statement", "<%= okfn() + nope %>", false},
 	{"fails-after-helper-block-in-same-statement", "<%= two(cap() { %>b<% }, nope) %>", false},
 	{"fails-after-function-call-in-argument", "<%= ci(okfn(), \"s\") %>", false},
+	// the failing statement is in another template (a partial): the line is the partial tag's
+	{"fails-inside-a-partial", "<%= partial(\"fails-on-line-3\") %>", false},
+	{"fails-inside-a-helper-block-of-a-partial", "<%= partial(\"fails-in-a-helper-block-on-line-4\") %>", false},
+	{"fails-inside-a-function-of-a-partial", "<%= partial(\"fails-in-a-function-on-line-2\") %>", false},
 	// ... or runs a block whose failure the helper keeps to itself
 	{"fails-after-swallowed-block-error-in-same-statement", "<%= two(swallow() { %>\n\nb<%= nope %>\n<% }, 1 / 0) %>", false},
 	{"fails-after-tolerated-unknown-name-in-same-statement", "<%= two(nope == nil, !nope) + (1 / 0) %>", false},
@@ -138,6 +142,15 @@ func c15Ctx() *plush.Context {
 	ctx.Set("partialFeeder", func(n string) (string, error) {
 		if n == "ok" {
 			return "p1\n<%= 1 %>\np3\n", nil
+		}
+		// partials that fail on a line of their own: the caller reports the line of its partial tag
+		switch n {
+		case "fails-on-line-3":
+			return "p1\np2\n<%= nope %>\n", nil
+		case "fails-in-a-helper-block-on-line-4":
+			return "p1\n<%= cap() { %>\nb\n<%= nope %>\n<% } %>\n", nil
+		case "fails-in-a-function-on-line-2":
+			return "<% let pf = fn() {\n return nope\n} %>\n\n<%= pf() %>", nil
 		}
 		return "", fmt.Errorf("no partial %q", n)
 	})
